@@ -633,6 +633,10 @@ func TestVerifC15(t *testing.T) {
 				}
 				res["drain_ms"] = time.Since(d0).Milliseconds()
 				res["inflight_end"] = s.inflight()
+				// what the drain cut off at its deadline unwinds a moment later: let it end within THIS case's event log
+				for w0 := time.Now(); s.inflight() != 0 && time.Since(w0) < 3*time.Second; {
+					time.Sleep(2 * time.Millisecond)
+				}
 				s.mu.Lock()
 				res["events"] = s.events
 				s.events = nil
